@@ -107,6 +107,27 @@ def is_gate(fi: FuncInfo) -> bool:
                                               and (".handle_" in fi.qualname or ".MessageReceiver." in fi.qualname))
 
 
+def _exc_ancestors(ck: Check, short_name: str) -> List[str]:
+    from ..engine.walker import BUILTIN_EXC_BASES
+    out = [short_name]
+    cur: Optional[str] = short_name
+    for _ in range(12):
+        nxt = None
+        cands = [c for q_, c in ck.repo.classes.items() if q_.split(".")[-1] == cur]
+        if cands:
+            for b in cands[0].bases:
+                if b:
+                    nxt = str(b).split(":")[-1].split(".")[-1]
+                    break
+        elif cur in BUILTIN_EXC_BASES:
+            nxt = BUILTIN_EXC_BASES[cur]
+        if not nxt:
+            break
+        out.append(nxt)
+        cur = nxt
+    return out
+
+
 def rule_no_new_rejections(ck: Check, rule: str, prefixes: Sequence[str], what: str) -> None:
     """accepting paths stay open: a function that validates, decodes or handles input has no raise statement and no call of a validator
     beyond those recorded for it (raise statements are identified by exception class and message text, so moving, merging or re-formatting
@@ -128,7 +149,18 @@ def rule_no_new_rejections(ck: Check, rule: str, prefixes: Sequence[str], what: 
             got = [a.lstrip("?") for a in got]
         new = [a for a in got if a not in want]
         # a reworded message is not a new refusal: per exception class, only MORE distinct raise statements than recorded count
-        cls_of = lambda a: a.split(":")[0] if not a.startswith("->") else a       # noqa
+        want_classes = {w_.split(":")[0] for w_ in want if not w_.startswith("->")}
+
+        def cls_of(a: str) -> str:
+            # a refusal raised as a (new) subclass of the recorded class is the recorded refusal under a more specific name: every handler
+            # that caught it still does
+            if a.startswith("->"):
+                return a
+            k = a.split(":")[0]
+            for anc in _exc_ancestors(ck, k):
+                if anc in want_classes:
+                    return anc
+            return k
         new = [a for a in new if a.startswith("->")
                or len([g for g in got if cls_of(g) == cls_of(a)]) > len([w_ for w_ in want if cls_of(w_) == cls_of(a)])]
         construct = "%s has no new way to refuse its input" % short(q)
